@@ -1,7 +1,7 @@
 (* ErrsProofs: lemmas about the error model Errs.v (C14) with non-vacuity examples and
    the witnesses of the excluded cases (_refuted). *)
 From Coq Require Import List NArith ZArith Bool Lia.
-From JV Require Import Bytes Msg ErrsJson Errs.
+From JV Require Import Bytes Msg ErrsJson ErrsJsonProofs Errs.
 Import ListNotations.
 Local Open Scope Z_scope.
 
@@ -304,11 +304,35 @@ Proof. repeat split; intros; rewrite ?call_jrpc; reflexivity. Qed.
 Lemma valid_utf8_sanitize m : valid_utf8 m = true -> sanitize_utf8 m = m.
 Proof. unfold valid_utf8. apply beq_eq. Qed.
 
+(* Error.Data on the wire is the compaction of what was sent: the same content (JSON-equal),
+   white space dropped and '<' '>' '&' U+2028 U+2029 escaped inside strings *)
+Lemma wire_data_content d d' :
+  wire_data d = Some d' -> json_content d' = json_content d /\ d' = squeeze SqOut d.
+Proof.
+  unfold wire_data. destruct d as [|b d0].
+  - intros H. injection H as <-. split; reflexivity.
+  - intros H. split; [exact (compact_content _ _ H)|exact (compact_squeeze _ _ H)].
+Qed.
+
+(* the data for which a reply is produced: none, or valid JSON *)
+Lemma wire_data_some_iff d :
+  (exists d', wire_data d = Some d') <-> (d = [] \/ json_valid d = true).
+Proof.
+  unfold wire_data, json_valid. destruct d as [|b d0].
+  - split; [auto|]. intros _. exists []. reflexivity.
+  - split.
+    + intros [d' H]. right. rewrite H. reflexivity.
+    + intros [H|H]; [discriminate|]. destruct (compact (b :: d0)) as [d'|]; [|discriminate].
+      exists d'. reflexivity.
+Qed.
+
 Lemma error_verbatim r c m d d' :
   c <> Cancelled -> c <> DeadlineExceeded -> valid_utf8 m = true -> wire_data d = Some d' ->
-  call r (EJrpc c m d) = OErr (EJrpc c m d').
+  call r (EJrpc c m d) = OErr (EJrpc c m d') /\
+  json_content d' = json_content d /\ d' = squeeze SqOut d.
 Proof.
-  intros H1 H2 Hm Hd. rewrite call_jrpc, Hd, (valid_utf8_sanitize m Hm).
+  intros H1 H2 Hm Hd. split; [|exact (wire_data_content d d' Hd)].
+  rewrite call_jrpc, Hd, (valid_utf8_sanitize m Hm).
   rewrite from_wire_other by assumption. reflexivity.
 Qed.
 
@@ -318,11 +342,22 @@ Example error_verbatim_nonvacuous :
     Some [91; 49; 44; 34; 92; 117; 48; 48; 51; 99; 34; 93]%N (* [1,"<"] *).
 Proof. vm_compute. repeat split; discriminate. Qed.
 
+Example error_verbatim_content_nonvacuous :
+  let d := [32; 91; 49; 44; 32; 34; 60; 34; 93]%N in
+  json_content d = [TOut 91; TOut 49; TOut 44; TOut 34; TCh 60; TOut 34; TOut 93]%N /\
+  call (ResJson []) (EJrpc 7 [109]%N d) =
+    OErr (EJrpc 7 [109]%N [91; 49; 44; 34; 92; 117; 48; 48; 51; 99; 34; 93]%N).
+Proof. vm_compute. split; reflexivity. Qed.
+
+Example wire_data_some_iff_nonvacuous :
+  json_valid [123; 125]%N = true /\ json_valid [123]%N = false /\ wire_data [123; 32; 125]%N = Some [123; 125]%N.
+Proof. vm_compute. repeat split. Qed.
+
 (* data that is absent stays absent; the message is never touched when it is valid UTF-8 *)
 Lemma error_verbatim_no_data r c m :
   c <> Cancelled -> c <> DeadlineExceeded -> valid_utf8 m = true ->
   call r (EJrpc c m []) = OErr (EJrpc c m []).
-Proof. intros H1 H2 Hm. apply error_verbatim; auto. Qed.
+Proof. intros H1 H2 Hm. apply (error_verbatim r c m [] []); auto. Qed.
 
 (* the excluded cases, each with the exact outcome *)
 Lemma error_verbatim_refuted_sentinel_codes r m d d' :
@@ -371,6 +406,12 @@ Proof.
   f_equal. apply from_wire_deadline. cbn [we_code]. unfold wire_code.
   rewrite (error_code_deadline e Hf Hc Hr). reflexivity.
 Qed.
+
+Lemma sentinels r e :
+  first_coder e = None ->
+  (reaches false e = true -> call r e = OErr ECanceled) /\
+  (reaches false e = false -> reaches true e = true -> call r e = OErr EDeadline).
+Proof. intros Hf. split; [apply sentinel_canceled|apply sentinel_deadline]; exact Hf. Qed.
 
 Lemma wire_code_eq e z : z <> NoError -> z <> InternalError -> (wire_code e = z <-> error_code e = z).
 Proof.
@@ -628,3 +669,59 @@ Proof.
   cbn [we_code we_msg we_data]. unfold code_err. cbn [error_text].
   rewrite (sanitize_ascii _ (code_string_ascii c)). reflexivity.
 Qed.
+
+(* ---- non-vacuity of the remaining implications ------------------------------------------------------------------ *)
+
+Local Open Scope Z_scope.
+
+Example error_code_wrap_nonvacuous :
+  let e := EJoin [EPlain [112]%N; ECoder KPtrPtr 9 [107]%N] in
+  is_nil e = false /\ error_code (EWrap [119]%N e) = 9 /\ error_code (EWrap [119]%N enil) = SystemError.
+Proof. vm_compute. repeat split. Qed.
+
+Example sentinel_iff_nonvacuous :
+  let e := EWrap [119]%N (ECode Cancelled) in
+  is_nil e = false /\ deliverable e = true /\ error_code e = Cancelled /\
+  call (ResJson []) e = OErr ECanceled /\
+  call (ResJson []) (EJrpc DeadlineExceeded [109]%N []) = OErr EDeadline.
+Proof. vm_compute. repeat split. Qed.
+
+Example error_verbatim_refuted_sentinel_codes_nonvacuous :
+  wire_data [32; 49]%N = Some [49]%N /\ call (ResJson []) (EJrpc Cancelled [109]%N [32; 49]%N) = OErr ECanceled.
+Proof. vm_compute. split; reflexivity. Qed.
+
+Example error_verbatim_refuted_invalid_data_nonvacuous :
+  wire_data [123]%N = None /\ call (ResJson []) (EJrpc 7 [109]%N [123]%N) = OLost.
+Proof. vm_compute. split; reflexivity. Qed.
+
+Example unmarshalable_unsupported_nonvacuous :
+  is_nil (EJoin [enil]) = true /\
+  call (ResBad (EPlain [106; 255]%N)) (EJoin [enil]) = OErr (EJrpc SystemError [106; 239; 191; 189]%N []).
+Proof. vm_compute. split; reflexivity. Qed.
+
+Example handler_error_wins_nonvacuous :
+  is_nil (ECode 5) = false /\
+  call (ResBad (EPlain [106]%N)) (ECode 5) = call (ResJson [49]%N) (ECode 5) /\
+  call (ResJson [49]%N) (ECode 5) = OErr (EJrpc 5 (t_error_code ++ [53]%N) []).
+Proof. vm_compute. repeat split. Qed.
+
+Example code_err_through_call_nonvacuous :
+  2147483647 <> NoError /\ Cancelled <> NoError /\
+  outcome_code (call (ResJson []) (code_err 2147483647)) = Some 2147483647 /\
+  call (ResJson []) (code_err Cancelled) = OErr ECanceled.
+Proof. vm_compute. repeat split; discriminate. Qed.
+
+Example code_err_arrives_nonvacuous :
+  InvalidParams <> NoError /\ InvalidParams <> Cancelled /\ InvalidParams <> DeadlineExceeded /\
+  call (ResJson []) (code_err InvalidParams) = OErr (EJrpc InvalidParams t_invalid_params []).
+Proof. vm_compute. repeat split; discriminate. Qed.
+
+Example with_data_crash_nonvacuous :
+  nth_error ([] : heap) 0 = None /\ WVal [49]%N <> WNil /\ marshal_arg (WVal [49]%N) <> None /\
+  with_data [] 0 (WVal [49]%N) = WDCrash /\ with_data [] 0 WNil = WDOk [] 0.
+Proof. vm_compute. repeat split; discriminate. Qed.
+
+Example notify_error_discarded_nonvacuous :
+  is_nil (EJrpc ParseError [112]%N []) = false /\
+  notify (ResJson [49]%N) (EJrpc ParseError [112]%N []) = None.
+Proof. vm_compute. split; reflexivity. Qed.
